@@ -26,6 +26,12 @@ E(x) == IF x <= H THEN x ELSE TWO64 - 1 - (MAX - x)
 T64(k) == LET p == 65536 % k IN (p * p * p * p) % k
 SlotIx(k, x) == IF x <= H THEN x % k ELSE (T64(k) + x + (k - 1) * (MAX + 1)) % k
 
+Wrap(x) == x % (MAX + 1)
+\* SerfEventOps!TooOld: "curTime > len(buffer) && lt < curTime - len(buffer)" on model times
+TooOld(k, cc, lt) == Pos(cc) > k /\ Pos(lt) < Pos(cc) - k
+\* the same test on the real uint64 values
+RealTooOld(k, cc, lt) == E(cc) > k /\ E(lt) < E(cc) - k
+
 Init == /\ MAX \in Nat /\ MAX >= 3 /\ MAX < 65536 * 65536
         /\ b \in 1..8
         /\ t \in Nat /\ t <= MAX
@@ -37,6 +43,8 @@ Law == /\ SlotIx(b, t) = E(t) % b                      \* the slot of the real v
        /\ (Pos(t) < Pos(u)) <=> (E(t) < E(u))          \* model order = order of the real values
        /\ E(MAX) = TWO64 - 1 /\ E(0) = 0               \* top and bottom are the real top and bottom
        /\ (t < MAX /\ t # H) => E(t + 1) = E(t) + 1    \* +1 commutes except across the gap
+       /\ t # H => E(Wrap(t + 1)) = (E(t) + 1) % TWO64  \* incl. the wrap of the real counter at 2^64-1
+       /\ TooOld(b, t, u) <=> RealTooOld(b, t, u)       \* the buffer-window test (clock t, message time u)
 
 \* sanity: the naive slot t % b is NOT the real slot (b = 3) -- a counterexample is expected
 NaiveSlot == t % b = E(t) % b
